@@ -147,6 +147,12 @@ class C01(Harness):
             cv = sp.SingleWindowSplitter(fh=fh)
         elif kind == "cutoff":
             cv = sp.CutoffSplitter(np.array(inp["cutoffs"]), fh=fh, window_length=inp["wl"])
+        # the splitter object is not fresh: it has been asked about another, longer series before
+        try:
+            cv.get_n_splits(pd.RangeIndex(n + 2))
+            cv.get_cutoffs(pd.RangeIndex(n + 2))
+        except ValueError:
+            pass
         try:
             splits = [(L(tr), L(te)) for tr, te in cv.split(y)]
         except ValueError:
